@@ -30,6 +30,15 @@ fitness, scores, steps, weights, forward output) to its snapshot; every member i
 of its parent (weights, forward output, histories) sharing no list / tensor storage with it; the
 returned objects (elite and every member) are pairwise distinct objects, none is an old population
 member, and changing one (scores, steps, index, mut, a weight) changes no other.
+
+Source translation (`pre_gate`, before the Lean gate): `py2lean_tourn.py` translates the source text of
+`TournamentSelection.{__init__, _tournament, _elitism, select}` (agilerl/hpo/tournament.py of the tree
+under test) into `lean/Gen/TournGen.lean`; `Proofs/TournGenEq.lean` proves the generated definitions equal
+to the model (`Cfg.valid`, `winner`, `elitePos`, `maxId`, `eliteOf`, `newPop`) and `Props/C05.lean`
+restates the theorems over the generated definitions (`C05_source_translation_*`).  If the translator
+rejects the source or those proofs stop checking, that is a gate problem naming the broken declaration;
+the suites below then supply the failing input if there is one (else the VIOLATION line ends with
+no-failing-input-found).
 """
 from __future__ import annotations
 
@@ -42,6 +51,8 @@ from fractions import Fraction
 import numpy as np
 import torch
 
+import common
+import py2lean_tourn
 from common import ROOT, Check, InfraError, ddmin
 
 TAG = "verif_tag"
@@ -784,6 +795,16 @@ def probe_encoder_activation(chk: Check) -> None:
                     f"{', '.join(bad)}: equal weights but different network output than the parent "
                     f"(encoder output activation Identity in the original, ReLU in the clone) for net_config={nc}",
                     {"probe": FINDING_ACT, "net_config": nc, "cfg": [2, True, 2, 2], "seed": 11})
+
+
+# ----------------------------------------------------------------------------- source translation
+def pre_gate(chk: Check) -> None:
+    """Regenerate lean/Gen/TournGen.lean from the source text of the tree under test (before the Lean
+    gate) and re-check `generated = model` (Proofs/TournGenEq.lean) and the theorems over the generated
+    definitions (Props/C05.lean).  A failure is a gate problem; the suites then look for the failing input."""
+    common.translation_gate(chk, py2lean_tourn, "Gen/TournGen.lean",
+                            ["Gen.TournGen", "Proofs.TournGenEq", "Props.C05"],
+                            "TournamentSelection.__init__, _tournament, _elitism, select")
 
 
 # ----------------------------------------------------------------------------- check
